@@ -31,6 +31,11 @@ package ast
 //@   ensures n == nil ==> result == 0
 //@   ensures n != nil ==> result == n.offset
 
+//@ func Node.Endoffset
+//@   option nilable-receiver
+//@   ensures n == nil ==> result == 0
+//@   ensures n != nil ==> result == n.endoffset
+
 //@ func Node.Tree
 //@   option nilable-receiver
 //@   ensures n == nil ==> result == nil
